@@ -52,6 +52,8 @@ type obs struct {
 	createCalls                              int
 	scopes                                   []godi.Scope
 	createErrs                               []error
+	initInsts                                []*inst
+	initFailed                               bool
 	mws                                      []mwObs
 	errHCalls                                int
 	handlerRuns                              int
@@ -80,7 +82,7 @@ func (st *reqState) snapshot() obs {
 	st.mu.Lock()
 	defer st.mu.Unlock()
 	return obs{
-		createCalls: st.createCalls, scopes: append([]godi.Scope(nil), st.scopes...), createErrs: append([]error(nil), st.createErrs...),
+		createCalls: st.createCalls, scopes: append([]godi.Scope(nil), st.scopes...), createErrs: append([]error(nil), st.createErrs...), initInsts: append([]*inst(nil), st.initInsts...), initFailed: st.initFailed,
 		mws: append([]mwObs(nil), st.mws...), errHCalls: st.errHCalls, handlerRuns: st.handlerRuns,
 		hScope: st.hScope, hScopeErr: st.hScopeErr, hSvc: st.hSvc, hSvcErr: st.hSvcErr, hEarly: st.hEarly,
 		methodCalls: st.methodCalls, ctrlID: st.ctrlID, ctrlSvc: st.ctrlSvc, ctrlScope: st.ctrlScope, ctrlEarly: st.ctrlEarly,
@@ -115,7 +117,10 @@ func (cs *caseState) checkRequest(st *reqState) (fs []finding, inconclusive stri
 	}
 
 	passesMW := p.Route != RouteNoScope
-	created := passesMW && p.Exit != ExitCreateFail && p.Exit != ExitClosed
+	if p.Exit == ExitInitFail && passesMW && !ob.initFailed {
+		return nil, "init-fail plan: the scope initializer did not see the request's context (nothing was made to fail)"
+	}
+	created := passesMW && p.Exit != ExitCreateFail && p.Exit != ExitClosed && p.Exit != ExitInitFail
 	expectHandler := !passesMW || (created && p.Exit != ExitMWErr)
 	statusKnown := ob.terr == nil && !ob.driverRecovered
 
@@ -174,6 +179,15 @@ func (cs *caseState) checkRequest(st *reqState) (fs []finding, inconclusive stri
 		cs.checkErrH(&fs, st, ob, statusKnown, "scope-create-failure")
 		if ob.handlerRuns > 0 {
 			add("handler-ran-after-scope-create-failure", errHLabel(o.ErrH), "scope creation failed (%s), the error handler ran %d time(s) (custom handlers only are counted), and the route handler still ran %d time(s); status %d", p.Exit, ob.errHCalls, ob.handlerRuns, ob.status)
+		}
+		// what the failed creation had made for the request's scope is closed, once
+		for _, i := range ob.initInsts {
+			switch n := i.closes.Load(); {
+			case n == 0:
+				add("instance-close-count", p.Exit+":never-closed", "%s#%d, created for the scope of the request whose creation then failed, got no Close", i.kind, i.id)
+			case n > 1:
+				add("instance-close-count", p.Exit+":closed-twice", "%s#%d, created for the scope of the request whose creation then failed, got %d Close events", i.kind, i.id, n)
+			}
 		}
 		return fs, ""
 	}
